@@ -26,10 +26,12 @@ def sched(what: str, ref: str) -> tuple:
 CHECKS = {
     'C01': sched('the lifecycle-graph oracle (first state CREATED, every ENTERED pair an edge of the documented graph, the '
                  'terminal state and its outcome unchanged at every later sample including a post-mortem barrage of all '
-                 'control calls, step(), execute() and late callbacks).', 'DESIGN.md 3 C01'),
+                 'control calls, step(), execute() and late callbacks); requests are also placed after termination; the smallest '
+                 'programs are explored with K=4 (thorough 5).', 'DESIGN.md 3 C01'),
     'C02': sched('the outcome-agreement oracle (future/result()/successful()/killed_msg()/exception() agree, one terminal '
                  'listener notification, cleanups once, closed, step_until_terminated() returned; future pending while '
-                 'live, sampled after every choice).', 'DESIGN.md 3 C02'),
+                 'live, sampled after every choice); also on work chains awaiting futures / children and with K=4 on the '
+                 'smallest programs.', 'DESIGN.md 3 C02'),
     'C03': ('fault-enumerator',
             'exhaustive fault-point enumeration (every hook / user function x occurrence x before|after super) over every '
             'single-request placement scenario on the real Process',
@@ -43,10 +45,13 @@ CHECKS = {
             'known findings (on_terminated / on_close raising after super) are listed in KNOWN_FINDINGS.txt.',
             'DESIGN.md 3 C03'),
     'C04': sched('the kill oracle (never raises, never lost, no step starts after it, result True iff KILLED, text '
-                 'recorded, future().cancel() equivalent, unkillability probe from every live end configuration).',
+                 'recorded, future().cancel() equivalent, unkillability probe from every live end configuration); also on work '
+                 'chains awaiting futures / children, with K=4 on the smallest programs, and on processes recreated from a '
+                 'checkpoint at every waiting / paused point.',
                  'DESIGN.md 3 C04'),
     'C05': sched('the pause/play transparency oracle (no raise, nothing runs while paused, play un-pauses and withdraws a '
-                 'pending pause, trace/outputs/result equal to the uninterrupted run, status restored).',
+                 'pending pause, trace/outputs/result equal to the uninterrupted run, status restored); also on work chains '
+                 'and with K=4 (thorough 6) on the smallest programs.',
                  'DESIGN.md 3 C05'),
     'C06': sched('the wake-up oracle (an accepted resume / completed awaitables always lead to the continuation running '
                  'exactly once with the first accepted value, never WAITING at quiescence after play).',
